@@ -48,6 +48,7 @@ def main() -> int:
             tier = replay.get("tier", tier)
         ctx = common.Ctx(prop, tier, seed)
         ctx.audit_result = common.audit(prop, tier)
+        common.start_coverage(f"{prop}-{tier}")
         common.import_ginjax()
         if replay is not None and hasattr(mod, "replay") and replay.get("kind") != "theorem":
             ctx.is_replay = True
